@@ -614,10 +614,7 @@ open Nuts.C06.Framing
     `unicode.IsSpace`, '{' ⇒ JSON; else split at '.', exactly 3 segments, each must decode with `RawURLEncoding` and re-encode to itself -/
 theorem fact_framing_body :
     Facts.C06.framingStmts =
-      ["trimmed := bytes.TrimLeftFunc(input, unicode.IsSpace)", "if len(trimmed) > 0 && trimmed[0] == '{'", "return true",
-       "segments := bytes.Split(input, <*ast.ArrayType>{'.'})", "if len(segments) != 3", "return false", "range segments",
-       "decoded, err := base64.RawURLEncoding.DecodeString(string(segment))",
-       "if err != nil || base64.RawURLEncoding.EncodeToString(decoded) != string(segment)", "return false", "return true"] ∧
+      ["trimmed := bytes.TrimLeftFunc(input, unicode.IsSpace)", "if len(trimmed) > 0 && trimmed[0] == '{'", "return true", "segments := bytes.Split(input, []byte{'.'})", "if len(segments) != 3", "return false", "range segments", "decoded, err := base64.RawURLEncoding.DecodeString(string(segment))", "if err != nil || base64.RawURLEncoding.EncodeToString(decoded) != string(segment)", "return false", "return true"] ∧
     (Facts.C06.framingSep, Facts.C06.framingSegments, Facts.C06.framingJsonByte) = (46, 3, 123) := by decide
 
 /-- `ParseTransaction` on bytes: whatever it accepts passed `isJWSSerialization` computed on those bytes, and carries their hash as ref -/
@@ -687,6 +684,43 @@ end FramingBytes
 
 section StoreBytes
 open Nuts.C06.Shelf
+
+/-- the functions of dag.go that `NutsModel/C06/Shelf.lean` mirrors, pinned statement by statement (exact source text): hash-list
+    codec, clock index, root check, `addSingle`, `add` (head / lc_high / tx_num bookkeeping), the range scan with `stopAtNil = true`
+    and the byte order of the sort, the widths of the big-endian counters -/
+theorem fact_store_bodies :
+    Facts.C06.dagBody_parseHashList =
+      ["if len(input) == 0", "return nil", "num := (len(input) - (len(input) % hash.SHA256HashSize)) / hash.SHA256HashSize", "result := make([]hash.SHA256Hash, num)", "for i := 0; i < num; i++", "result[i] = hash.FromSlice(input[i*hash.SHA256HashSize : i*hash.SHA256HashSize+hash.SHA256HashSize])", "return result"] ∧
+    Facts.C06.dagBody_appendHashList =
+      ["newList := make([]byte, 0, len(list)+hash.SHA256HashSize)", "newList = append(newList, list...)", "newList = append(newList, h.Slice()...)", "return newList"] ∧
+    Facts.C06.dagBody_indexClockValue =
+      ["lc := tx.GetShelfWriter(clockShelf)", "clockKey := stoabs.Uint32Key(transaction.Clock())", "ref := transaction.Ref()", "currentRefs, err := lc.Get(clockKey)", "if err != nil && !errors.Is(err, stoabs.ErrKeyNotFound)", "return err", "range parseHashList(currentRefs)", "if ref.Equals(cRef)", "return nil", "err := lc.Put(clockKey, appendHashList(currentRefs, ref))", "if err != nil", "return err", "log.Logger(). WithField(core.LogFieldTransactionRef, ref). Tracef(\"Storing transaction logical clock (LC: %d)\", clockKey)", "return nil"] ∧
+    Facts.C06.dagBody_getRoots =
+      ["roots, err := lcBucket.Get(stoabs.Uint32Key(0))", "if err != nil", "return nil", "return parseHashList(roots)"] ∧
+    Facts.C06.dagBody_addSingle =
+      ["ref := transaction.Ref()", "refKey := stoabs.NewHashKey(ref)", "transactions := tx.GetShelfWriter(transactionsShelf)", "lc := tx.GetShelfWriter(clockShelf)", "if exists(transactions, ref)", "log.Logger(). WithField(core.LogFieldTransactionRef, ref). Trace(\"Transaction already exists, not adding it again.\")", "return nil", "if len(transaction.Previous()) == 0", "if getRoots(lc) != nil", "return errRootAlreadyExists", "err := indexClockValue(tx, transaction)", "if err != nil", "return fmt.Errorf(\"unable to calculate LC value for %s: %w\", ref, err)", "return transactions.Put(refKey, transaction.Data())"] ∧
+    Facts.C06.dagBody_add =
+      ["highestLC := d.getHighestClockValue(tx)", "headRef := hash.EmptyHash()", "range transactions", "if transaction != nil", "err := d.addSingle(tx, transaction)", "if err != nil", "return err", "if transaction.Clock() > highestLC || transaction.Clock() == 0", "highestLC = transaction.Clock()", "headRef = transaction.Ref()", "err := d.setHighestClockValue(tx, highestLC)", "if err != nil", "return err", "if !headRef.Equals(hash.EmptyHash())", "err := d.setHead(tx, headRef)", "if err != nil", "return err", "txCount := d.getNumberOfTransactions(tx) + uint64(len(transactions))", "return d.setNumberOfTransactions(tx, txCount)"] ∧
+    Facts.C06.dagBody_visitBetweenLC =
+      ["reader := tx.GetShelfReader(clockShelf)", "return reader.Range(stoabs.Uint32Key(startInclusive), stoabs.Uint32Key(endExclusive), func(_ stoabs.Key, value []byte) error { parsed := parseHashList(value) sort.Slice(parsed, func(i, j int) bool { return parsed[i].Compare(parsed[j]) <= 0 }) for _, next := range parsed { transaction, err := getTransaction(next, tx) if err != nil { return err } visitor(transaction) } return nil }, true)"] ∧
+    Facts.C06.dagBody_setNumberOfTransactions =
+      ["writer := tx.GetShelfWriter(metadataShelf)", "bytes := make([]byte, 8)", "binary.BigEndian.PutUint64(bytes[:], count)", "return writer.Put(stoabs.BytesKey(numberOfTransactionsKey), bytes)"] ∧
+    Facts.C06.dagBody_setHighestClockValue =
+      ["writer := tx.GetShelfWriter(metadataShelf)", "bytes := make([]byte, 4)", "binary.BigEndian.PutUint32(bytes[:], count)", "return writer.Put(stoabs.BytesKey(highestClockValue), bytes)"] ∧
+    Facts.C06.dagBody_setHead =
+      ["writer := tx.GetShelfWriter(metadataShelf)", "return writer.Put(stoabs.BytesKey(headRefKey), ref.Slice())"] ∧
+    Facts.C06.dagBody_bytesToClock =
+      ["return binary.BigEndian.Uint32(clockBytes)"] ∧
+    Facts.C06.dagBody_bytesToCount =
+      ["return binary.BigEndian.Uint64(clockBytes)"] := by
+  exact ⟨rfl, rfl, rfl, rfl, rfl, rfl, rfl, rfl, rfl, rfl, rfl, rfl⟩
+
+/-- shelf names, metadata keys and the hash size the model uses are the ones in the source -/
+theorem fact_store_keys :
+    (Facts.C06.dag_numberOfTransactionsKey, Facts.C06.dag_highestClockValue, Facts.C06.dag_headRefKey) =
+      (numberOfTransactionsKey, highestClockValue, headRefKey) ∧
+    (Facts.C06.dag_metadataShelf, Facts.C06.dag_transactionsShelf, Facts.C06.dag_clockShelf) = ("metadata", "documents", "clocks") ∧
+    Facts.C06.sha256HashSize = hashSize := by decide
 
 /-- BYTE-LEVEL `dag.add` REFINES `graphAdd`: on a store holding the abstract state `s`, adding a fresh transaction writes exactly
     the bytes that hold `graphAdd s tx` (clock index entry appended, `tx_num`+1 as 8 bytes, `lc_high` as 4 bytes, `head_ref` only
